@@ -197,6 +197,24 @@ def work_special(task):
                 msg = judge(rec)
                 if msg:
                     acc.fail(case, f"label_switching_cost {bk}, iteration_limit {limit} (N={N}, W={W}, T={T}): {msg}")
+    # a sensor that never changes (status flag, dead channel) next to varying ones: still N sensors
+    for (N, W, T) in ((3, 1, 10), (2, 2, 11), (3, 2, 12)):
+        d = build(N, W, 2, (T,), False)
+        flat = d.series[0].copy()
+        flat[:, 1] = 2.5
+        d = ml.Driver(d.name + "_flat", [flat], W=W, K=2, lam=0.11, beta=1.0, m=1, biased=True)
+        rec = ml.real_run(d, block_init(d), 2, (), entry="front", deep=False)
+        acc.n += 1
+        acc.nontrivial += 1
+        case = {"N": N, "W": W, "K": 2, "lengths": [T], "joint": False, "path": "special_constant_sensor"}
+        if rec.error is not None:
+            acc.count("runs_raised", type(rec.error).__name__)
+            continue
+        msg = judge(rec)
+        if msg is None and any(np.shape(a) != (N * W, N * W) for a in rec.result.markov_random_fields):
+            msg = f"MRF shapes {[np.shape(a) for a in rec.result.markov_random_fields]}, expected {(N * W, N * W)}"
+        if msg:
+            acc.fail(case, f"a constant sensor among {N} (W={W}, T={T}): {msg}")
     X = series_for(40, 2, 0)
     TRACER.install()
     TRACER.deep = False
@@ -347,7 +365,7 @@ def run(ctx):
         "single: N in {1,2,3} x W in 1..6 x K in {2,3} x T in {W+5,W+6,W+9}; joint: every tuple (every order) of "
         "1..n series with lengths from {W+4,W+5,W+8} (plus tuples with one series of exactly W rows in every position), n = 3 for K=2 and NW<=6, 2 up to NW<=8 (thorough: 6 for "
         "NW<=2, 4 for NW<=4, 3 beyond, both K); scripted contiguous-block initial labelling, virtual pool, limit 3; "
-        "plus an infinite / 1e300 switching cost (scalar and one entry of a per-pair vector) with iteration_limit 1 and 2, series with fewer rows than sensors, the same array object labelled six times with different windows, and 6 runs on the untouched default path (real GMM, real pool). Oracle on the result: T labels, margins "
+        "plus an infinite / 1e300 switching cost (scalar and one entry of a per-pair vector) with iteration_limit 1 and 2, a constant sensor among varying ones, series with fewer rows than sensors, the same array object labelled six times with different windows, and 6 runs on the untouched default path (real GMM, real pool). Oracle on the result: T labels, margins "
         "exactly floor((W-1)/2) / (W-1)-floor((W-1)/2) of -1, all others integers in [0,K), K MRFs of NW x NW, K "
         "and W echoed, joint: one list per series in input order, each equal to its slice of the joint labelling. "
         "Plus array forms of the same series " + str(list(FORMS)) + " for 5 (N,W) x {single, 2 series}. "
